@@ -477,8 +477,10 @@ impl<const L: bool> EventSource for Zoo<L> {
         let out: Result<PostAction, BoxErr> = match inner_res {
             Err(e) => Err(e),
             Ok(a) => match acc {
-                Ret::Err => Err(injected("process_events")),
+                // a wrapped source that is finished (closed channel/ping, ended stream, dropped timer) leaves the loop
+                // whatever the callback program wanted to return
                 _ if a == PostAction::Remove => Ok(PostAction::Remove),
+                Ret::Err => Err(injected("process_events")),
                 Ret::Continue => Ok(a),
                 r => Ok(to_pa(r)),
             },
@@ -494,12 +496,13 @@ impl<const L: bool> EventSource for Zoo<L> {
             exec::reg_event(uid, RegCall::Register, false, true);
             return Err(injected_calloop("register (before delegating)"));
         }
+        // the wrapper's own token (synthetic events) is taken first so that its sub-id never depends on how
+        // many tokens the wrapped source asks for this time
+        let synth = if L { Some(f.token()) } else { None };
         let mut res = self.inner_register(poll, f);
         if res.is_ok() {
             self.registered = true;
-        }
-        if res.is_ok() && L {
-            self.synth_token = Some(f.token());
+            self.synth_token = synth;
         }
         if fault == Some(false) && res.is_ok() {
             // a source that fails late undoes what it did, then reports the failure
@@ -521,10 +524,11 @@ impl<const L: bool> EventSource for Zoo<L> {
             exec::reg_event(uid, RegCall::Reregister, false, true);
             return Err(injected_calloop("reregister (before delegating)"));
         }
+        let synth = if L { Some(f.token()) } else { None };
         let mut res = self.inner_reregister(poll, f);
-        if res.is_ok() && L && self.registered {
+        if res.is_ok() && self.registered {
             // (a source that is not registered has no token to receive synthetic events with)
-            self.synth_token = Some(f.token());
+            self.synth_token = synth;
         }
         if fault == Some(false) && res.is_ok() {
             res = Err(injected_calloop("reregister (after delegating)"));
